@@ -661,3 +661,51 @@ impl<const M: usize, W> ArcsWeighted for AL<M, W> {
         })
     }
 }
+
+/// Digraph with an explicit vertex set within `0..N` (possibly
+/// non-contiguous); arcs only between vertices.
+#[derive(Clone, Copy, Debug, PartialEq, Eq)]
+pub struct GV<const N: usize> {
+    pub v: [bool; N],
+    pub a: [[bool; N]; N],
+}
+
+impl<const N: usize> GV<N> {
+    #[must_use]
+    pub fn any() -> Self {
+        let v: [bool; N] = crate::nd::bools();
+        let mut a = [[false; N]; N];
+
+        for x in 0..N {
+            for y in 0..N {
+                if x != y && v[x] && v[y] {
+                    a[x][y] = crate::nd::bool();
+                }
+            }
+        }
+
+        Self { v, a }
+    }
+}
+
+impl<const N: usize> Vertices for GV<N> {
+    fn vertices(&self) -> impl Iterator<Item = usize> {
+        mask(self.v)
+    }
+}
+
+impl<const N: usize> HasArc for GV<N> {
+    fn has_arc(&self, u: usize, v: usize) -> bool {
+        u < N && v < N && self.a[u][v]
+    }
+}
+
+impl<const N: usize> Arcs for GV<N> {
+    fn arcs(&self) -> impl Iterator<Item = (usize, usize)> {
+        GArcs {
+            a: &self.a,
+            u: 0,
+            v: 0,
+        }
+    }
+}
